@@ -1522,7 +1522,10 @@ fn cls(x: &mut Exec) -> Res {
         let ready = Arc::new(AtomicBool::new(false));
         let go_on = Arc::new(AtomicBool::new(false));
         let (ready2, go2) = (ready.clone(), go_on.clone());
-        let h = go!(move || {
+        // a third of the predecessors runs on a stack of another size than the configured one: such a coroutine is
+        // not handed back to the pool when it ends, its local storage has to be destroyed all the same
+        let odd_stack = if x.rng.chance(1, 3) { Some(*x.rng.pick(&[0x6000usize, 0x14000, 0x20000])) } else { None };
+        let body = move || {
             CLS_ID.with(|c| c.set(1000 + i));
             CLS_TR.with(|t| *t.borrow_mut() = Some(ClsVal(1000 + i)));
             CLS_INIT.with(|c| c.set(99));
@@ -1571,7 +1574,11 @@ fn cls(x: &mut Exec) -> Res {
                     coroutine::sleep(Duration::from_millis(20));
                 },
             }
-        });
+        };
+        let h = match odd_stack {
+            Some(sz) => unsafe { coroutine::Builder::new().stack_size(sz).spawn(body) }.expect("spawn with a stack size"),
+            None => unsafe { coroutine::spawn(body) },
+        };
         if residue == 4 {
             busy.push((ready, go_on, preds.len()));
         }
